@@ -868,4 +868,107 @@ example : importFile ⟨1 / 10, some (1 / 10), 1 / 8⟩ ⟨some 3, [tIdx, tTimeP
     ∧ importFile ⟨1 / 10, some (1 / 10), 1 / 8⟩ ⟨some 4, [tTimePx, tIdx, tCoordPx], [[0, 3, 3 / 2]]⟩ = .error .io := by
   decide +kernel
 
+/-! ## the `%.6e` column of minimum observable durations -/
+
+/-- the magnitudes the exponent search of the model covers (every finite double is inside) -/
+def InRange (x : Rat) : Prop := x = 0 ∨ (pow10 (-1000) ≤ |x| ∧ |x| < pow10 1000)
+
+theorem fmt6e_zero : fmt6e 0 = 0 := by rw [fmt6e_eq]; simp
+
+/-- **`%.6e` is idempotent**: a value that was printed with seven significant digits is printed
+    unchanged — the hypothesis `fmt d = d` of `import_export_roundtrip_id` is ESTABLISHED by the first
+    save. -/
+theorem fmt6e_idempotent (x : Rat) (h : InRange x) : fmt6e (fmt6e x) = fmt6e x := by
+  rcases h with rfl | ⟨hlo, hhi⟩
+  · rw [fmt6e_zero, fmt6e_zero]
+  · rw [fmt6e_eq x]
+    have hx0 : x ≠ 0 := by
+      intro h0; subst h0
+      have := pow10_pos (-1000)
+      simp at hlo; linarith
+    simp only [hx0, if_false]
+    by_cases hneg : x < 0
+    · simp only [hneg, if_true]
+      rw [abs_of_neg hneg] at hlo hhi
+      obtain ⟨hv, hid, _⟩ := fmtPos_props (-x) (by linarith) hlo hhi
+      rw [fmt6e_eq]
+      have h1 : -fmtPos (-x) ≠ 0 := by linarith
+      have h2 : -fmtPos (-x) < 0 := by linarith
+      simp only [h1, h2, if_false, if_true, neg_neg, hid]
+    · simp only [hneg, if_false]
+      have hpos : 0 < x := lt_of_le_of_ne (not_lt.1 hneg) (Ne.symm hx0)
+      rw [abs_of_pos hpos] at hlo hhi
+      obtain ⟨hv, hid, _⟩ := fmtPos_props x hpos hlo hhi
+      rw [fmt6e_eq]
+      have h1 : fmtPos x ≠ 0 := by linarith
+      have h2 : ¬ fmtPos x < 0 := by linarith
+      simp only [h1, h2, if_false, hid]
+
+/-- **`%.6e` keeps seven significant digits**: the printed value differs from the value by at most
+    half a unit of the seventh digit, i.e. relative `5·10⁻⁷`. -/
+theorem fmt6e_accurate (x : Rat) (h : InRange x) : |fmt6e x - x| ≤ |x| * (1 / 2000000) := by
+  rcases h with rfl | ⟨hlo, hhi⟩
+  · rw [fmt6e_zero]; simp
+  · rw [fmt6e_eq x]
+    have hx0 : x ≠ 0 := by
+      intro h0; subst h0
+      have := pow10_pos (-1000)
+      simp at hlo; linarith
+    simp only [hx0, if_false]
+    by_cases hneg : x < 0
+    · simp only [hneg, if_true]
+      rw [abs_of_neg hneg] at hlo hhi ⊢
+      obtain ⟨_, _, hacc⟩ := fmtPos_props (-x) (by linarith) hlo hhi
+      have : -fmtPos (-x) - x = -(fmtPos (-x) - -x) := by ring
+      rw [this, abs_neg]; exact hacc
+    · simp only [hneg, if_false]
+      have hpos : 0 < x := lt_of_le_of_ne (not_lt.1 hneg) (Ne.symm hx0)
+      rw [abs_of_pos hpos] at hlo hhi ⊢
+      exact (fmtPos_props x hpos hlo hhi).2.2
+
+example : InRange (1234567 / 1000000 + 1 / 3) := by
+  right
+  rw [pow10_eq_zpow, pow10_eq_zpow, abs_of_pos (by norm_num)]
+  constructor
+  · calc (10 : Rat) ^ (-1000 : Int) ≤ 10 ^ (0 : Int) := zpow_le_zpow_right₀ (by norm_num) (by norm_num)
+      _ ≤ _ := by norm_num
+  · calc (1234567 / 1000000 + 1 / 3 : Rat) < 10 ^ (1 : Int) := by norm_num
+      _ ≤ 10 ^ (1000 : Int) := zpow_le_zpow_right₀ (by norm_num) (by norm_num)
+
+/-- test (not a theorem about all inputs): a tie is rounded to even, a carry moves the exponent -/
+example : fmt6e (12345675 / 10000000) = 1234568 / 1000000 ∧ fmt6e (99999995 / 10000000) = 10
+    ∧ fmt6e (fmt6e (1 / 3)) = fmt6e (1 / 3) := by decide +kernel
+
+/-- **Save → load → save → load = save → load.**  For every non-empty group of non-empty tracks, the
+    group that comes back from a file is a fixed point of the round trip: saving it again (same
+    kymograph, same sampling) and importing returns exactly the same tracks, photon counts and
+    minimum observable durations. -/
+theorem roundtrip_twice (k : Kymo) (hpx : k.px ≠ 0) (sample : Option (Int → Rat → Int)) (g : List Track)
+    (hne : g ≠ []) (hpts : ∀ tr ∈ g, tr.pts ≠ [])
+    (hr : ∀ tr ∈ g, ∀ d, tr.minDur = some d → InRange d) :
+    ∃ g', roundtrip k sample fmt6e g = .ok g' ∧ roundtrip k sample fmt6e g' = .ok g' := by
+  refine ⟨_, import_export_roundtrip k hpx sample fmt6e g hne hpts, ?_⟩
+  apply import_export_roundtrip_id k hpx sample fmt6e
+  · simpa using hne
+  · intro tr' h'
+    obtain ⟨tr, htr, rfl⟩ := List.mem_map.1 h'
+    exact hpts tr htr
+  · intro tr' h'
+    obtain ⟨tr, htr, rfl⟩ := List.mem_map.1 h'
+    rfl
+  · cases hall : g.all (·.minDur.isSome) with
+    | false =>
+      left
+      intro tr' h'
+      obtain ⟨tr, htr, rfl⟩ := List.mem_map.1 h'
+      simp [reimported, mdOf]
+    | true =>
+      right
+      intro tr' h'
+      obtain ⟨tr, htr, rfl⟩ := List.mem_map.1 h'
+      have hsome := (List.all_eq_true.1 hall) tr htr
+      obtain ⟨d, hd⟩ := Option.isSome_iff_exists.1 hsome
+      refine ⟨fmt6e d, by simp [reimported, mdOf, hd], ?_⟩
+      exact fmt6e_idempotent d (hr tr htr d hd)
+
 end Verif.C17
